@@ -271,6 +271,12 @@ func (d *cnDriver) genSpec() cnTxSpec {
 		}
 	case x < 10:
 		sp.Validity, sp.Gas = "lowgas", uint64(d.rng.Intn(400)) // every exhaustion point below the needed amount
+		if d.rng.Intn(4) == 0 {
+			sp.Gas = 0 // no gas at all, with and without a fee amount (the gas price is amount / gas)
+			if d.rng.Intn(2) == 0 && sp.Fee == 0 {
+				sp.Fee = 1
+			}
+		}
 	case x < 13:
 		sp.Validity = "badsig"
 	case x < 15:
@@ -615,6 +621,13 @@ func (d *cnDriver) step() error {
 			}
 		}
 	}
+	if d.rng.Intn(12) == 0 {
+		// an envelope under a small-order public key with the signature (identity, 0): valid for ANY message under the
+		// permissive (ZIP-215) rules, rejected by the strict rules transactions are verified with
+		if raw, sp, ok := n.smallOrderForgery(d.rng); ok {
+			metas = append(metas, cnTxMeta{sp, raw})
+		}
+	}
 	if d.rng.Intn(15) == 0 {
 		junk := make([]byte, 1+d.rng.Intn(40))
 		d.rng.Read(junk)
@@ -623,6 +636,12 @@ func (d *cnDriver) step() error {
 	var mempool [][]byte
 	for _, m := range metas {
 		mempool = append(mempool, m.raw)
+		// mempool admission on the observer (results are local; a panic is not)
+		if perr := guard(func() { d.reps[0].mux.CheckTx(cmtabci.RequestCheckTx{Tx: m.raw, Type: cmtabci.CheckTxType_New}) }); perr != nil {
+			msg := perr.Error()
+			d.panics = append(d.panics, fmt.Sprintf("h=%d CheckTx(%s:%s): %s", h, m.spec.Kind, m.spec.Validity, msg[:min(len(msg), 1500)]))
+			d.emit(map[string]any{"ev": "panic", "h": h, "where": "CheckTx", "msg": msg[:min(len(msg), 2000)]})
+		}
 	}
 	// the proposer's replica prepares the proposal
 	prop := d.reps[1+b.Proposer]
@@ -924,6 +943,7 @@ func consRun(args []string) int {
 	maxGroup := fs.Int("maxgroup", 2, "largest primary committee size requested by runtime registrations")
 	noRounds := fs.Bool("norounds", false, "do not submit executor commitments")
 	tiny := fs.Bool("tinystake", false, "stake thresholds of 1-2 base units and escrows around them and around one voting-power unit (16)")
+	debond := fs.Int64("debond", 1, "staking DebondingInterval (epochs)")
 	syncEvery := fs.Int64("statesync", 0, "every N blocks a fresh replica joins by state sync (validator replicas 0 and 1 then keep checkpoints)")
 	minTransact := fs.Int64("mintransact", 0, "staking MinTransactBalance")
 	vrfMode := fs.Bool("vrf", false, "VRF beacon backend: nodes submit VRF proofs, elections use them")
@@ -953,7 +973,7 @@ func consRun(args []string) int {
 	}
 	defer w.Close()
 	cfg := cnCfg{Validators: *vals, Users: *users, EpochInterval: *interval, Seed: *seed, ChainID: fmt.Sprintf("verif-chain-%d", *seed),
-		MaxValidators: *maxVals, MaxPerEntity: *maxPerEntity, ExtraNodes: *extraNodes, TiedStake: *tied, VRF: *vrfMode, VRFThreshold: *vrfThr, MinTransact: *minTransact, TinyStake: *tiny}
+		MaxValidators: *maxVals, MaxPerEntity: *maxPerEntity, ExtraNodes: *extraNodes, TiedStake: *tied, VRF: *vrfMode, VRFThreshold: *vrfThr, MinTransact: *minTransact, TinyStake: *tiny, Debond: *debond}
 	net, err := newNet(cfg, *scratch)
 	if err != nil {
 		fmt.Fprintln(os.Stderr, "net:", err)
